@@ -130,6 +130,7 @@ type judgeStats struct {
 	lagged                                                         int           // retries whose nack was applied later than the failure (deferred batch mutation)
 	maxLag                                                         time.Duration // largest such deferral
 	assumptionBroken                                               string
+	chainReqs, chainMaxReqs                                        int // part h: requests seen by the in-memory network (all sends / the longest walk of one send)
 }
 
 func judge(sp Spec, res Result) ([]Finding, judgeStats) {
@@ -183,7 +184,21 @@ func judge(sp Spec, res Result) ([]Finding, judgeStats) {
 			perCycle[s.Cycle]++
 			cls := refClass(s.Beh)
 			in := inputClass(s.Beh)
-			if slow := time.Duration(s.Beh.SlowMS) * time.Millisecond; slow > rc.Timeout {
+			if s.Beh.Kind == "chain" {
+				// part h (redir_test.go): reference walk of the redirect chain under the written egress policy
+				var cf []Finding
+				var cd []string
+				cls, in, cf, cd = judgeChain(sp, m, s)
+				for _, f := range cf {
+					add(f.Key, "message %s send #%d (attempt %d): %s", m.ID, i+1, s.Attempt, f.Msg)
+				}
+				js.distinct = append(js.distinct, cd...)
+				js.chainReqs += len(s.Wire)
+				if len(s.Wire) > js.chainMaxReqs {
+					js.chainMaxReqs = len(s.Wire)
+				}
+			}
+			if slow :=time.Duration(s.Beh.SlowMS) * time.Millisecond; slow > rc.Timeout {
 				// no answer within the target's own timeout: a timeout, whatever would have arrived later
 				cls, in = "retryable", in+"~later-than-timeout"
 			}
@@ -392,6 +407,7 @@ type checker struct {
 	reported map[string]bool
 	samples  map[string]int
 	maxLag   time.Duration
+	chainMax int
 
 	unanswered  bool // a jitter draw did not go through the harness-answered rand.Float64
 	assumptions int  // histories in which a lease mutation failed (outside the statement's assumption)
@@ -446,6 +462,13 @@ func (c *checker) run(sp Spec) Result {
 	r.Add("ref_dead_max_retries", int64(js.refMaxRetries))
 	r.Add("ref_dead_policy_denied", int64(js.refPolicy))
 	r.Add("ref_nonsuccess_1xx_3xx", int64(js.refNon))
+	if js.chainReqs > 0 {
+		r.Add("h_requests_seen_by_the_network", int64(js.chainReqs))
+		if js.chainMaxReqs > c.chainMax {
+			c.chainMax = js.chainMaxReqs
+			r.Set("h_info_most_requests_in_one_attempt", js.chainMaxReqs)
+		}
+	}
 	for _, d := range js.distinct {
 		r.Distinct(d)
 	}
@@ -947,7 +970,7 @@ func TestCheck(t *testing.T) {
 	for _, part := range []struct {
 		name string
 		f    func()
-	}{{"a", c.partA}, {"b", c.partB}, {"g", c.partG}, {"f", c.partF}, {"c", c.partC}, {"d", c.partD}, {"e", c.partWire}} {
+	}{{"a", c.partA}, {"b", c.partB}, {"h", c.partH}, {"g", c.partG}, {"f", c.partF}, {"c", c.partC}, {"d", c.partD}, {"e", c.partWire}} {
 		t0 := time.Now()
 		if part.name == "c" {
 			c.deadline = c.deadline.Add(-15 * time.Second) // keep room for the small parts d and e
